@@ -40,6 +40,8 @@ func vDirectiveBoundariesScan(doc string) []int {
 var vC09Extra = []string{
 	"JSIGHT 0.3\nMACRO @m\n(\n  200 any\n)\nTYPE @t any\nPASTE @m\n",
 	"JSIGHT 0.3\nTYPE @t any\nMACRO @inner\n(\n  Body any\n)\nMACRO @m\n(\n  PASTE @inner\n)\nTYPE @u any\nPASTE @m\n",
+	// accepted: directives that carry a body AND still take children (the cut falls between the body and the first child)
+	"JSIGHT 0.3\nGET /cats\n  200\n  {\"id\": 1}\n    Headers\n    {\"X-Total\": \"1\"}\n  404 any\n    Headers\n    {\"X-Why\": \"a\"}\nPOST /cats\n  Request\n  {\"id\": 2}\n    Headers\n    {\"X-In\": \"b\"}\n  201\n  {\"ok\": true}\n    Headers\n    {\"X-Out\": \"c\"}\n",
 }
 
 func HIncludeSplit() {
